@@ -10,6 +10,8 @@
   `strconv.Quote` (`Std`) and `strconv.Unquote`.  The only assumptions are the explicit hypotheses
   `QuoteContract quote unquote` and "text the stdlib renders for numbers / durations / times is a
   bare token"; nothing is assumed about messages, keys, group names or string values.
+  `Glb/Props/C13b.lean` discharges the first hypothesis for the transcription of the real
+  `strconv.Quote` / `strconv.Unquote` (`text_roundtrip_go`, `one_line_go`).
 -/
 import Glb.Proofs.TextHandler
 
